@@ -83,11 +83,46 @@ def _call(args):
     return getattr(mod, fname)(item)
 
 
+class ItemTimeout(BaseException):
+    """The code under test did not return within the per-item watchdog limit."""
+
+
+
 def _run_batch(modname, fname, items):
+    """Run the items one by one under a watchdog: a call that does not come back (an endless loop in the
+    code under test) is reported like a crash of that item instead of hanging the whole check.  Python-level
+    loops are interrupted by the exception; a loop inside C code is ended by killing the worker (second
+    alarm), after which pool_map isolates the culprit."""
     import importlib
+    import signal
     mod = importlib.import_module(modname)
     fn = getattr(mod, fname)
-    return [fn(it) for it in items]
+    fired = []
+
+    def on_alarm(signum, frame):
+        if fired:
+            os._exit(70)
+        fired.append(1)
+        signal.setitimer(signal.ITIMER_REAL, 60)
+        raise ItemTimeout()
+    try:
+        old = signal.signal(signal.SIGALRM, on_alarm)
+    except ValueError:           # not in the main thread of the worker: no watchdog
+        return [fn(it) for it in items]
+    out = []
+    try:
+        for it in items:
+            del fired[:]
+            signal.setitimer(signal.ITIMER_REAL, float(os.environ.get("VERIF_ITEM_TIMEOUT", "300")))
+            try:
+                out.append(fn(it))
+            except ItemTimeout:
+                out.append({"id": it.get("id") if isinstance(it, dict) else None, "crashed": True, "timeout": True})
+            finally:
+                signal.setitimer(signal.ITIMER_REAL, 0)
+    finally:
+        signal.signal(signal.SIGALRM, old)
+    return out
 
 
 def _isolated(src, env, modname, fname, items):
